@@ -313,7 +313,52 @@ def string_task(task, ctx: Ctx):
     env.reset("utf-8")
 
 
+ENC_NAMES = ["utf-8", "utf8", "euc-jp", "euc-kr", "euc-tw", "euctw", "cn-gb", "gbk", "big5", "uhc", "iso-8859-1", "ascii", "cp437", "koi8-r", "no-such-codec", ""]
+SAMPLE = ["a", "\u00e9", "\u4f60", "\u2500", "\u00e9a\u4f60"]
+
+
+def enc_state():
+    """everything width arithmetic and target encoding depend on, observed through the public functions"""
+    from urwid import str_util as su
+    from urwid import util as uu
+
+    out = [su.get_byte_encoding(), uu.get_encoding()]
+    for t in SAMPLE:
+        try:
+            enc, cs = uu.apply_target_encoding(t)
+            out.append((bytes(enc), tuple(cs), uu.calc_width(enc, 0, len(enc))))
+        except Exception as e:  # noqa: BLE001
+            out.append(("EXC", type(e).__name__))
+    return out
+
+
+def encoding_history_task(task, ctx: Ctx):
+    """set_encoding must be a function of its argument: the state after set_encoding(e1); set_encoding(e2) equals the state
+    after set_encoding(e2) alone (no part of the configuration may survive from an earlier call)"""
+    _, e1s = task
+    import urwid.util as uu
+
+    for e2 in ENC_NAMES:
+        uu.set_encoding("ascii")
+        uu.set_encoding(e2)
+        fresh = enc_state()
+        for e1 in e1s:
+            ctx.count("evaluations")
+            uu.set_encoding(e1)
+            uu.set_encoding(e2)
+            got = enc_state()
+            ctx.obs(e1, e2, got[:2])
+            if got != fresh:
+                k = next(i for i, (a, b) in enumerate(zip(got, fresh)) if a != b)
+                ctx.violation("encoding-history", f"C11/encoding-history/{'target' if k == 1 else ('mode' if k == 0 else 'text')}", {"part": "enc-history", "e1": e1, "e2": e2},
+                              f"set_encoding({e1!r}); set_encoding({e2!r}) leaves {got[k]!r}; set_encoding({e2!r}) alone gives {fresh[k]!r}")
+            else:
+                ctx.distinct("nontrivial", ("enc", e1, e2))
+    env.reset("utf-8")
+
+
 def run(tier, R):
+    R.run_tasks(encoding_history_task, [("enc", [e]) for e in ENC_NAMES])
     tasks = []
     planes = list(range(17))
     for p in planes:
@@ -347,7 +392,7 @@ def run(tier, R):
         "traces_validated_against_impl": ev,
         "evaluations": ev,
         "distinct_nontrivial": len(R.ctx.sets.get("nontrivial", ())),
-        "rule": f"part 1: every Unicode scalar value of planes {planes} ({n1} code points), str and UTF-8 paths; part 2: every string of <= {L} "
+        "rule": f"part 0: every ordered pair of 16 encoding names (incl. names without a Python codec) through set_encoding: the resulting state must not depend on the earlier call; part 1: every Unicode scalar value of planes {planes} ({n1} code points), str and UTF-8 paths; part 2: every string of <= {L} "
         "characters over 8 str classes (ascii, latin-1, CJK, combining, emoji, ZWJ, DEC line, control) as str and UTF-8 bytes, over 7 wide-mode "
         "byte tokens (ascii, '@', EUC, GBK 81 40, Big5 a4 40, a1 7e, fe fe) and 5 narrow-mode bytes, x every boundary pair x every target column "
         "x every trim range; invalid/truncated byte strings (no-raise + range only); apply_target_encoding over strings of DEC/ASCII/CJK/Latin-1 "
@@ -379,6 +424,8 @@ def replay(case, ctx):
     elif part == "invalid":
         env.reset({"utf8": "utf-8", "wide": "euc-jp", "narrow": "iso-8859-1"}[case["mode"]])
         check_invalid(ctx, case["mode"], (case["bytes"],))
+    elif part == "enc-history":
+        encoding_history_task(("enc", [case["e1"]]), ctx)
     elif part == "target":
         env.reset(case["encoding"])
         check_target(ctx, case["encoding"], case["text"])
